@@ -235,6 +235,20 @@ def run(ctx):
             ctx.check('C05.X1', ok, ast.name, 'missing-source-error:guard', ast.where(e),
                       'the "missing and no known rule" error is raised exactly for a dirty leaf '
                       'that was not created by a dep loader')
+            # ... and for every such leaf: no further condition (how the node was reached, who asked) lets one through
+            def consistent(b, i, s2):
+                for k, pol, a in ast.edge_facts(b, i):
+                    if mentions_field(a, 'Node::dirty_') and strip(a).get('k') != 'bin' and pol is False:
+                        return False
+                    if mentions_field(a, 'Node::generated_by_dep_loader_') and pol is True:
+                        return False
+                    if (is_var('edge')(a) or mentions_call(a, 'Node::in_edge') or (strip(a).get('k') == 'mem' and strip(a)['n'] == 'Node::in_edge_')) and pol is True:
+                        return False
+                return True
+            r = ast.find_path(None, lambda x: x['k'] in ('ret', 'exit'), is_blocker=lambda x: x is e, from_succ=ast.entry, edge_ok=consistent)
+            ctx.check('C05.X1', r is None, ast.name, 'missing-source-error:extra-condition', ast.where(e),
+                      'every dirty leaf that no dep loader created is reported (no other condition skips the error)',
+                      witness=None if r is None else {'blocks': r[0]})
             # and every path from here returns false
             r = ast.find_path(e, lambda x: x['k'] == 'ret' and const_value(x.get('e')) != 0)
             ctx.check('C05.X1', r is None, ast.name, 'missing-source-error:returns-true',
